@@ -387,7 +387,7 @@ func (self *Analyzer) importItem(node pAst.ImportStatement) ast.AnalyzedImport {
 		module, alreadyAnalyzed := self.modules[node.FromModule.Ident()]
 
 		if !alreadyAnalyzed {
-			self.analyzeModule(node.FromModule.Ident(), parsed, true)
+			self.analyzeModule(node.FromModule.Ident(), parsed, false)
 
 			// analyze if this import causes a cyclic dependency
 			if path, isCyclic := self.importGraphIsCyclic(self.currentModuleName); isCyclic {
